@@ -586,6 +586,14 @@ func expandParameterOrResponse(input interface{}, resolver *schemaLoader, basePa
 			} else {
 				sch.Ref = rebasedRef
 			}
+
+			// the $ref of the schema is now in its final form, relative to the root document:
+			// it must not be interpreted again against the base of the current document
+			if ref != nil {
+				*ref = Ref{}
+			}
+
+			return nil
 		}
 	}
 
